@@ -5,6 +5,8 @@ and the time limit of around/balanced: see DESIGN.md §4 C14 for what is partial
 -/
 import LithiumProofs.MinimizeLog
 import LithiumProofs.PairsTime
+import LithiumProofs.MinClause
+import LithiumProofs.Util
 import LithiumModel.Args
 
 namespace Strat
@@ -153,6 +155,132 @@ example :
     ((minimize { max := 4 } (fun _ _ => false) (fun _ => 0) t).atts.reverse.map (fun a => (a.lo, a.hi, a.size))).take 4
       = [(5, 9, 4), (1, 5, 4), (7, 9, 2), (6, 8, 2)] := by
   decide
+
+/-- the `--min` clause: with power-of-two `--min ≤ --max`, a candidate of minimize deletes fewer than
+`--min` atoms only once at most `--min` atoms remain — the chunk size in force is at least `--min`
+or at most `--min` atoms are left, and a block smaller than the chunk size is the entire
+remainder.  For every test, clock and repeat mode. -/
+theorem C14_min_clause (cfg : Cfg) (o : Oracle) (clk : Clock) (t : Testcase) (h : t.WF)
+    (hmax : ∃ k, cfg.max = 2 ^ k) (hmin : ∃ j, max cfg.min 1 = 2 ^ j) (hle : max cfg.min 1 ≤ cfg.max) :
+    ∀ a ∈ (minimize cfg o clk t).atts,
+      (max cfg.min 1 ≤ a.size ∨ a.bestLen ≤ max cfg.min 1) ∧
+      (a.hi - a.lo < max cfg.min 1 → a.bestLen ≤ max cfg.min 1) := by
+  obtain ⟨k, hk⟩ := hmax
+  obtain ⟨j, hj⟩ := hmin
+  have hmax1 : 1 ≤ cfg.max := by rw [hk]; exact Nat.one_le_two_pow
+  have hp := Util.lp2_pos t.len
+  have hinv : MInv t.len (minInit cfg t) { best := t } := by
+    refine ⟨h, ?_, ?_, by simp [minInit], Nat.le_refl _⟩
+    · show 1 ≤ min cfg.max (Util.lp2 t.len); omega
+    · show 1 ≤ min (min cfg.max (Util.lp2 t.len)) (max cfg.min 1); omega
+  have hpow : ∃ j', min cfg.max (Util.lp2 t.len) = 2 ^ j' := by
+    obtain ⟨j', hj'⟩ := Util.lp2_pow2 t.len
+    by_cases hle' : cfg.max ≤ Util.lp2 t.len
+    · exact ⟨k, by rw [Nat.min_eq_left hle', hk]⟩
+    · exact ⟨j', by rw [Nat.min_eq_right (by omega), hj']⟩
+  -- at the start: the chunk size is at least --min, or the whole file has at most --min atoms
+  have hstart : max cfg.min 1 ≤ min cfg.max (Util.lp2 t.len) ∨ t.len ≤ max cfg.min 1 := by
+    by_cases hc : max cfg.min 1 ≤ min cfg.max (Util.lp2 t.len)
+    · exact Or.inl hc
+    · right
+      have hlt : Util.lp2 t.len < 2 ^ j := by rw [← hj]; omega
+      rw [hj]
+      exact Util.le_of_lp2_lt_pow t.len j hlt
+  have hj0 : JInv (2 ^ j) (minInit cfg t) { best := t } := by
+    rw [← hj]
+    refine ⟨hstart, ?_, hpow, by intro a ha; simp at ha⟩
+    show max cfg.min 1 ≤ min (min cfg.max (Util.lp2 t.len)) (max cfg.min 1) ∨ t.len ≤ max cfg.min 1
+    rcases hstart with h1 | h1
+    · exact Or.inl (by omega)
+    · exact Or.inr h1
+  obtain ⟨st', it', -, hP, -, e2, -, -⟩ :=
+    minLoop_reach cfg o clk (stopAt cfg clk) t.len
+      (fun st it => LInv t (min cfg.max (Util.lp2 t.len)) st it ∧ JInv (2 ^ j) st it)
+      (fun st it st' _ hp hr => ⟨linv_round cfg clk (stopAt cfg clk) t _ st it st' hp.1 hr,
+        jinv_round cfg clk (stopAt cfg clk) j st st' it hp.2 hr⟩)
+      (fun st it ha hp => ⟨linv_attempt o t _ t.len st it ha hp.1, jinv_attempt o _ t.len st it ha hp.2⟩)
+      (minFuel t) (minInit cfg t) { best := t } hinv
+      ⟨⟨isDel_refl t h, by intro a ha; simp at ha, List.Pairwise.nil, hpow, Nat.le_refl _⟩, hj0⟩
+  intro a ha
+  unfold minimize at ha
+  rw [e2] at ha
+  have hm := hP.2.atts a ha
+  obtain ⟨b, -⟩ := hP.1.atts a ha
+  rw [hj]
+  refine ⟨hm, ?_⟩
+  intro hsmall
+  rcases hm with h1 | h1
+  · -- the chunk size is ≥ --min, so a smaller block is the entire remainder
+    rcases b.block with hb | ⟨hb1, hb2, hb3⟩
+    · omega
+    · omega
+  · exact h1
+
+/-- `n` distinct one-byte atoms -/
+def atomsOf (n : Nat) : Testcase :=
+  { before := [], parts := (List.range n).map (fun i => [UInt8.ofNat i]), reducible := List.replicate n true, after := [] }
+
+/-- non-vacuity: `--min 4`, nothing accepted: on 9 atoms the blocks have 8, 4, 4 atoms and no smaller
+size is swept; on 3 atoms the chunk size is 2 < 4 — at most `--min` atoms remain -/
+example :
+    ((minimize { min := 4 } (fun _ _ => false) (fun _ => 0) (atomsOf 9)).atts.reverse.map (fun a => (a.lo, a.hi, a.size)))
+      = [(1, 9, 8), (5, 9, 4), (1, 5, 4)] ∧
+    ((minimize { min := 4 } (fun _ _ => false) (fun _ => 0) (atomsOf 3)).atts.reverse.map (fun a => (a.lo, a.hi, a.size, a.bestLen)))
+      = [(1, 3, 2, 3), (0, 2, 2, 3)] := by
+  decide
+
+/-- the resweep rule, at the round-end decision of minimize (`roundDecision` is the decision tree
+at strategies.py:471-507; `st.removed` is the `removed_chunks` flag, which `attempt` sets exactly
+when a candidate of the current sweep was accepted — `C14_removed_flag` — and every new sweep
+starts with it cleared, except the first one under `--repeat-first-round`): the same chunk size is
+swept again only after a sweep that removed something, never under `--repeat never`, and under
+`--repeat last` only at the smallest chunk size; in every other case the next sweep uses a strictly
+smaller chunk size, or the run ends. -/
+theorem C14_resweep_decision (cfg : Cfg) (st st' : MinSt) (n : Nat) (hmc : 1 ≤ st.minChunk)
+    (h : roundDecision cfg st n = some st') :
+    st'.removed = false ∧
+    ((st'.chunkSize = st.chunkSize ∧ st.removed = true ∧ cfg.rep ≠ .never ∧
+        (cfg.rep = .last → st.chunkSize ≤ st.minChunk)) ∨
+     st'.chunkSize < st.chunkSize) := by
+  unfold roundDecision at h
+  split at h
+  · rename_i hle
+    split at h
+    · rename_i hr
+      injection h with h; subst h
+      simp only [Bool.and_eq_true, Bool.or_eq_true, beq_iff_eq] at hr
+      refine ⟨rfl, Or.inl ⟨rfl, hr.1, ?_, fun _ => hle⟩⟩
+      rcases hr.2 with h1 | h1 <;> rw [h1] <;> simp
+    · exact absurd h (by simp)
+  · rename_i hgt
+    split at h
+    · rename_i hr
+      injection h with h; subst h
+      simp only [Bool.and_eq_true, beq_iff_eq, decide_eq_true_eq] at hr
+      refine ⟨rfl, Or.inl ⟨rfl, hr.1.1, by rw [hr.1.2]; simp, fun hl => ?_⟩⟩
+      rw [hr.1.2] at hl; exact absurd hl (by simp)
+    · injection h with h; subst h
+      have h2 : 2 ≤ st.chunkSize := by omega
+      obtain ⟨-, b⟩ := halveBelow_spec st.chunkSize st.chunkSize n (by omega) h2
+      exact ⟨rfl, Or.inr (by show halveBelow st.chunkSize st.chunkSize n < st.chunkSize; omega)⟩
+
+/-- `removed_chunks` after a candidate: set by an accepted one, otherwise unchanged -/
+theorem C14_removed_flag (o : Oracle) (st : MinSt) (it : It) :
+    (attempt o st it).1.removed = (st.removed || ((attempt o st it).2.atts.head?.map (·.resp) == some .accepted)) ∧
+    (attempt o st it).1.chunkSize = st.chunkSize ∧ (attempt o st it).1.minChunk = st.minChunk := by
+  obtain ⟨-, -, -, f4⟩ := try_flags it o (it.best.rmslice (max 0 (st.chunkEnd - st.chunkSize)) st.chunkEnd)
+    (fun r => { tag := 0, lo := (max 0 (st.chunkEnd - (st.chunkSize : Int))).toNat, hi := st.chunkEnd.toNat,
+                size := st.chunkSize, bestLen := it.best.len, base := it.best, tIdx := it.nTests,
+                cand := it.best.rmslice (max 0 (st.chunkEnd - st.chunkSize)) st.chunkEnd, resp := r })
+  unfold attempt
+  simp only
+  generalize hT : It.try it o (it.best.rmslice (max 0 (st.chunkEnd - st.chunkSize)) st.chunkEnd)
+    (fun r => { tag := 0, lo := (max 0 (st.chunkEnd - (st.chunkSize : Int))).toNat, hi := st.chunkEnd.toNat,
+                size := st.chunkSize, bestLen := it.best.len, base := it.best, tIdx := it.nTests,
+                cand := it.best.rmslice (max 0 (st.chunkEnd - st.chunkSize)) st.chunkEnd, resp := r }) = T at *
+  obtain ⟨r, it2⟩ := T
+  simp only at f4
+  cases r <;> simp [f4]
 
 /-- the time limit in minimize-around and minimize-balanced (without the experimental move): every
 proposal — hence every test — is made at a moment when the clock has not passed `start + limit`;
